@@ -10,9 +10,10 @@
                                   occurs again between the first three tokens and the last;
      the values of 9 and 35 fit factory's 32-byte buffers; the three bytes of 10 are digits;
      the whole message is shorter than 2^31.
-   rendered c toks = every value survives its type's rendering: printing the field object built
-     from the text gives the text back (for int types: the same integer); the BeginString is
-     the schema's own (C04-beginstring-ignored). *)
+   rendered c toks = every tag is known to the schema's field table and every value survives its
+     type's rendering: printing the field object built from the text gives the text back (for int
+     types: the same integer), also for BodyLength on its way through factory; the BeginString
+     is the schema's own (C04-beginstring-ignored). *)
 From Coq Require Import NArith ZArith List Bool.
 From F8 Require Import Codec.Bytes Codec.Meta Codec.Extract Codec.Decode Codec.Encode
                        C04.Spec_C04 C04.Strict C04.Tokens.
@@ -47,10 +48,18 @@ Definition exact_hyps (c : ctx) (toks : list tok) : bool :=
   (lenN (ser toks) <? 2147483648).
 
 Definition tok_rendered (c : ctx) (t : tok) : bool :=
+  match find_be (c_fields c) (k_tag t) with Some _ => true | None => false end &&     (* tag known to the schema *)
   val_eq (ftype c (k_tag t)) (k_val t) (c_render c (ftype c (k_tag t)) (k_val t)).
 Definition rendered (c : ctx) (toks : list tok) : bool :=
   forallb (tok_rendered c) toks &&
-  match toks with t8 :: _ => list_eqb (k_val t8) (c_begin c) | [] => false end.
+  match toks with
+  | t8 :: t9 :: _ =>
+      list_eqb (k_val t8) (c_begin c) &&
+      (* BodyLength goes through unsigned -> int -> text -> Field<int> -> text *)
+      val_eq (ftype c 9) (k_val t9)
+             (c_render c (ftype c 9) (itoa_Z (to_i32 (Z.of_N (fast_atoi_u32 (k_val t9))))))
+  | _ => false
+  end.
 
 (* the decoder stands at the token list ts: the input is pre ++ ser ts ++ tail, the offset is
    |pre| and the end of the decodable range is the end of ser ts *)
@@ -63,3 +72,14 @@ Fixpoint mflat (m : mbase) : list (N * list N) :=
   | MB _ _ _ pos groups _ => map snd pos ++ flat_map (fun g => flat_map mflat (snd g)) groups
   end.
 Definition tok_pair (t : tok) : N * list N := (k_tag t, k_val t).
+
+(* what the accepted object must hold for a framed token list: the schema's BeginString, the
+   BodyLength as the int field re-prints it, MsgType, the three checksum bytes, and every token
+   between the first three and the last with its own text *)
+Definition expected_pairs (c : ctx) (toks : list tok) : list (N * list N) :=
+  match toks with
+  | t8 :: t9 :: t35 :: _ =>
+      [ (8, c_begin c); (9, itoa_Z (to_i32 (Z.of_N (fast_atoi_u32 (k_val t9)))));
+        (35, k_val t35); (10, k_val (last toks t8)) ] ++ map tok_pair (middle toks)
+  | _ => []
+  end.
